@@ -65,6 +65,7 @@ pub fn menu() -> Vec<Item> {
         Item { name: "mark_builders_equal_classes", heavy: false, small: false, f: mark_builders_equal_classes },
         Item { name: "cursive_builder", heavy: false, small: false, f: cursive_builder },
         Item { name: "gsub_builders", heavy: false, small: false, f: gsub_builders },
+        Item { name: "lookalike_typed_tables", heavy: false, small: false, f: lookalike_typed_tables },
         Item { name: "post_v2_repeated_names", heavy: false, small: false, f: post_v2_repeated_names },
         Item { name: "cmap_format12_duplicates", heavy: false, small: false, f: cmap_format12_duplicates },
         Item { name: "ivs_builder_ties_both_modes", heavy: false, small: false, f: ivs_builder_ties_both_modes },
@@ -649,6 +650,60 @@ fn gsub_builders() -> Vec<u8> {
     ];
     let gsub = Gsub::new(Default::default(), Default::default(), LookupList::new(lookups));
     dump_table(&gsub).unwrap()
+}
+
+/// Look-alike tables of DIFFERENT write-fonts types that compile to identical bytes with identical
+/// children, so that the object store's dedup map (HashMap<TableData, ObjectId>) must treat them the
+/// same way under every hash seed: 64 (MultipleSubstFormat1, AlternateSubstFormat1) pairs with the
+/// same coverage and glyph lists, and 8 (MarkBasePosFormat1 + BaseArray, MarkMarkPosFormat1 +
+/// Mark2Array) pairs with the same marks, classes and anchors. A Hash/Eq inconsistency on the table
+/// type makes each pair shared or written twice depending on the map's keys.
+fn lookalike_typed_tables() -> Vec<u8> {
+    use write_fonts::tables::gsub::{AlternateSet, AlternateSubstFormat1, Gsub, MultipleSubstFormat1, Sequence, SubstitutionLookup};
+    let mut multi = vec![];
+    let mut alt = vec![];
+    for k in 0..64u16 {
+        let cov: CoverageTable = [g(10 + 3 * k), g(11 + 3 * k)].into_iter().collect();
+        let lists = [vec![g(500 + k), g(600 + k)], vec![g(700 + k)]];
+        multi.push(MultipleSubstFormat1::new(cov.clone(), lists.iter().cloned().map(Sequence::new).collect()));
+        alt.push(AlternateSubstFormat1::new(cov, lists.iter().cloned().map(AlternateSet::new).collect()));
+    }
+    let gsub = Gsub::new(
+        Default::default(),
+        Default::default(),
+        LookupList::new(vec![
+            SubstitutionLookup::Multiple(Lookup::new(LookupFlag::empty(), multi)),
+            SubstitutionLookup::Alternate(Lookup::new(LookupFlag::empty(), alt)),
+        ]),
+    );
+    let mut out = dump_table(&gsub).unwrap();
+    let mut vs = VariationStoreBuilder::new(2);
+    let mut m2b = vec![];
+    let mut m2m = vec![];
+    for k in 0..8u16 {
+        let mut mb = MarkToBaseBuilder::default();
+        let mut mm = MarkToMarkBuilder::default();
+        for (ci, cls) in ["top", "bottom"].iter().enumerate() {
+            let mark = g(900 + 4 * k + ci as u16);
+            let a = AnchorBuilder::new(10 * k as i16 + ci as i16, -7);
+            mb.insert_mark(mark, cls, a.clone()).unwrap();
+            mm.insert_mark1(mark, cls, a).unwrap();
+        }
+        for base in 0..2u16 {
+            for (ci, cls) in ["top", "bottom"].iter().enumerate() {
+                let a = AnchorBuilder::new(100 + k as i16, 300 + 10 * ci as i16 + base as i16);
+                mb.insert_base(g(950 + 4 * k + base), cls, a.clone());
+                mm.insert_mark2(g(950 + 4 * k + base), cls, a);
+            }
+        }
+        m2b.extend(mb.build(&mut vs));
+        m2m.extend(mm.build(&mut vs));
+    }
+    out.extend(gpos_of(vec![
+        PositionLookup::MarkToBase(Lookup::new(LookupFlag::empty(), m2b)),
+        PositionLookup::MarkToMark(Lookup::new(LookupFlag::empty(), m2m)),
+    ]));
+    out
 }
 
 /// post version 2 from a glyph order with standard names, custom names and repeated custom names.
